@@ -9,6 +9,7 @@ import GoZero.Extracted.C16
 import GoZero.C16.Model
 import GoZero.C16.ModelRW
 import GoZero.C16.ModelCache
+import GoZero.C16.ConcObjs
 set_option maxRecDepth 8000
 namespace GoZero.C16.Tie
 open GoZero.C16
@@ -380,5 +381,46 @@ theorem tie_cacheWheel : cacheWheel = [
     "return",
     "}",
     "cache.Del(key)"] := by decide
+
+/-! ### lock frames: what the interleaving models (Conc.lean, ConcObjs.lean, ConcTake.lean) assume about locking
+
+`body` stands for the statements executed while the lock is held (pinned by the statement lists above); a statement
+outside the locked region appears verbatim and must not touch shared state. -/
+
+/-- Queue: Put / Take / Empty hold the exclusive lock over their whole body (`CQueue.obj.isRead = false`) -/
+theorem tie_queueLocks :
+    queuePutLocks = ["q.lock.Lock()", "defer q.lock.Unlock()", "body"]
+    ∧ queueTakeLocks = ["q.lock.Lock()", "defer q.lock.Unlock()", "body"]
+    ∧ queueEmptyLocks = ["q.lock.Lock()", "body", "q.lock.Unlock()", "return empty"] := by decide
+
+/-- Ring: Add under the write lock, Take (the whole copy loop) under the read lock (`CRing.obj.isRead`) -/
+theorem tie_ringLocks :
+    ringAddLocks = ["r.lock.Lock()", "defer r.lock.Unlock()", "body"]
+    ∧ ringTakeLocks = ["r.lock.RLock()", "defer r.lock.RUnlock()", "body"] := by decide
+
+/-- SafeMap: Set / Del (including both migrations) under the write lock; Get / Size / Range (including the callback
+calls) under the read lock (`CMap.isRead`) -/
+theorem tie_safeMapLocks :
+    safeMapSetLocks = ["m.lock.Lock()", "defer m.lock.Unlock()", "body"]
+    ∧ safeMapDelLocks = ["m.lock.Lock()", "defer m.lock.Unlock()", "body"]
+    ∧ safeMapGetLocks = ["m.lock.RLock()", "defer m.lock.RUnlock()", "body"]
+    ∧ safeMapSizeLocks = ["m.lock.RLock()", "body", "m.lock.RUnlock()", "return size"]
+    ∧ safeMapRangeLocks = ["m.lock.RLock()", "defer m.lock.RUnlock()", "body"] := by decide
+
+/-- the model's read operations are exactly the methods that take `RLock` -/
+theorem tie_readOps :
+    (CMap.isRead (.get 0), CMap.isRead .size, CMap.isRead .range, CMap.isRead (.set 0 0), CMap.isRead (.del 0))
+      = (true, true, true, false, false)
+    ∧ (CRing.obj.isRead .take, CRing.obj.isRead (.add 0)) = (true, false)
+    ∧ (CQueue.obj.isRead .take, CQueue.obj.isRead (.put 0), CQueue.obj.isRead .empty) = (false, false, false) := by decide
+
+/-- Cache: `doGet` (lookup + recency touch) and the map writes of `Del` / `SetWithExpire` are single critical sections
+of `c.lock` (one atomic step each in `CT.step`); the timer calls come after the unlock -/
+theorem tie_cacheLocks :
+    cacheDoGetLocks = ["c.lock.Lock()", "defer c.lock.Unlock()", "body"]
+    ∧ cacheDelLocks = ["c.lock.Lock()", "body", "c.lock.Unlock()", "c.timingWheel.RemoveTimer(key)"]
+    ∧ cacheSetLocks = ["c.lock.Lock()", "body", "c.lock.Unlock()", "expiry := c.unstableExpiry.AroundDuration(expire)",
+                       "c.timingWheel.SetTimer(key, value, expiry)"]
+    ∧ cacheSizeLocks = ["c.lock.Lock()", "defer c.lock.Unlock()", "body"] := by decide
 
 end GoZero.C16.Tie
